@@ -55,6 +55,17 @@ META = {
                 text="The detector flags only what a schedule executes; here schedules are searched and every report comes with a seed that "
                      "reproduces it. Exploration over schedules and configurations (every flush-queue length including zero).",
                 note=WHOLE + "; relies on runtime.RaceDisable/RaceReleaseMerge semantics of go1.26.8; TSan reports a given stack pair once per process"),
+    "C13": dict(engine="comp", design_ref="7 C13",
+                technique="deterministic simulation of the watermark alone; counting reference model evaluated by the scheduler at every step",
+                text="Seeded exploration of caller interleavings with the real consumer goroutine; invariants are checked at every "
+                     "scheduling step, liveness (catch-up, release of waiters) exactly via deadlock detection.",
+                note=WHOLE + "; Begin indices are issued in non-decreasing order under a lock, as the engine's oracle does; "
+                     "'unfinished' is relative to Begin calls that returned and Done calls that started"),
+    "C17": dict(engine="comp", design_ref="7 C17",
+                technique="simulated tower-height randomness (fake clock seed) + sorted-slice reference model",
+                text="The property has no schedule or fault dimension; what the simulator adds is control of the PRNG seed (time.Now) so "
+                     "that tower shapes are explored across seeds and fixed on replay.",
+                note=WHOLE),
     "C15": dict(engine="engine", design_ref="7 C15",
                 technique="deterministic simulation; exact deadlock detection by the scheduler, bounded-step liveness with fair tail",
                 text="The scheduler knows the state of every goroutine: an empty runnable set with an outstanding call is a deadlock, not a "
